@@ -93,7 +93,8 @@ class Rows(object):
 EXTRA = [('came', ['/came/from/1', '', '0', ' ']),             # what the application stored for the outstanding request (any string, also a falsy one)
          ('acs_cfg', ['all', 'none-for-binding']),               # the SP has / has not an assertion-consumer endpoint configured for the delivering binding
          ('entry', ['authn', 'attrq']),                          # parse_authn_request_response / parse_attribute_query_response (answer to an attribute query, SOAP)
-         ('mixed', [False, True])]                               # a conformant EncryptedAssertion rides along; the row's conditions sit in a plain Assertion next to it
+         ('mixed', [False, True]),
+         ('rcpt2', ['same', 'foreign-first', 'foreign-last'])]  # a further bearer confirmation whose Recipient differs from the row's (own endpoint vs foreign)                               # a conformant EncryptedAssertion rides along; the row's conditions sit in a plain Assertion next to it
 
 
 def generated_strategy():
@@ -130,12 +131,12 @@ def judge(row):
             reasons.append('Destination is not an own endpoint for the binding and matches no pattern')
     if row['aud'] in ('other', 'me|other', 'other|me'):
         reasons.append('an audience restriction does not list the SP')
-    if row['conv'] and row['rcpt'] == 'foreign' and row.get('entry', 'authn') == 'authn':     # the attribute-query entry point takes no conversation info
+    if row['conv'] and (row['rcpt'] == 'foreign' or row.get('rcpt2', 'same') != 'same') and row.get('entry', 'authn') == 'authn':     # the attribute-query entry point takes no conversation info
         reasons.append('Recipient is foreign although conversation info was supplied')
     if reasons:
         return 'reject', reasons
     ok = (row.get('acs_cfg', 'all') == 'all' and row.get('entry', 'authn') == 'authn' and not row.get('mixed') and row['irt'] == 'match' and row['scd'] == 'match' and row['dest'] in ('own', 'absent') and row['aud'] in ('me', 'none', 'me+other-one', 'no-conditions')
-          and row['rcpt'] in ('endpoint', 'entity') and row['regex'] in ('unset', 'match'))
+          and row['rcpt'] in ('endpoint', 'entity') and row['regex'] in ('unset', 'match') and row.get('rcpt2', 'same') == 'same')
     if ok:
         return 'accept', []
     return 'unjudged', []
@@ -178,6 +179,10 @@ def run(row):
         data['in_response_to'] = irts[part]
         data['recipient'] = {'endpoint': acs, 'entity': spside.SP, 'foreign': 'https://evil.example.net/acs'}[row['rcpt']]
         confs.append({'method': build.BEARER, 'data': data})
+    if row.get('rcpt2', 'same') != 'same':
+        # one more confirmation, identical to the first except for the Recipient: foreign where the row's is own and the other way round is already covered by rcpt=foreign
+        extra = {'method': build.BEARER, 'data': dict(confs[0]['data'], recipient='https://evil.example.net/acs')}
+        confs = [extra] + confs if row['rcpt2'] == 'foreign-first' else confs + [extra]
     a['subject']['confirmations'] = confs
     r['destination'] = {'own': acs, 'own-other-binding': ACS['redirect' if row['binding'] == 'post' else 'post'], 'foreign': 'https://evil.example.net/acs', 'absent': None}[row['dest']]
     if row['aud'] == 'no-conditions':
